@@ -166,66 +166,55 @@ theorem keys_map_congr (svcs : List Svc) (f : Svc → Svc) (hf : ∀ v, keyOf (f
 
 /-! ### the invariant of C05 over all command histories (restarts included) -/
 
-structure Inv5 (s : State) : Prop where
-  uo : UO (keys s.svcs)
-  file : ∀ sns, s.file = some sns → UO (sns.map snapKey)
+structure Inv5 (c : Core) : Prop where
+  uo : UO (keys c.svcs)
+  file : ∀ sns, c.file = some sns → UO (sns.map snapKey)
 
-theorem snapKey_snapOf (s : State) (v : Svc) : snapKey (snapOf s v) = keyOf v := rfl
+theorem snapKey_snapOf (v : Svc) : snapKey (snapOf v) = keyOf v := rfl
 
-theorem inv5_save {s : State} (h : Inv5 s) : Inv5 (save s) := by
+theorem inv5_save {c : Core} (h : Inv5 c) : Inv5 (save c) := by
   refine ⟨h.uo, ?_⟩
   intro sns hs
   simp only [save, Option.some.injEq] at hs
   subst hs
   simp only [List.map_map]
-  have : (snapKey ∘ snapOf s) = keyOf := funext fun v => rfl
+  have : (snapKey ∘ snapOf) = keyOf := funext fun v => rfl
   rw [this]; exact h.uo
 
-theorem inv5_of_svcs_keys {s s' : State} (h : Inv5 s) (hk : ∀ k ∈ keys s'.svcs, k ∈ keys s.svcs)
-    (hf : s'.file = s.file) : Inv5 s' :=
-  ⟨UO_subset h.uo hk, fun sns hs => h.file sns (hf ▸ hs)⟩
-
-theorem disposeLb_svcs (s : State) (id : Nat) : (disposeLb s id).svcs = s.svcs := rfl
-theorem disposeLb_file (s : State) (id : Nat) : (disposeLb s id).file = s.file := rfl
-theorem newLb_svcs (s : State) (t : List Bytes) : (newLb s t).1.svcs = s.svcs := rfl
-theorem newLb_file (s : State) (t : List Bytes) : (newLb s t).1.file = s.file := rfl
-
-theorem inv5_disposeLb {s : State} (h : Inv5 s) (id : Nat) : Inv5 (disposeLb s id) :=
-  ⟨h.uo, h.file⟩
-theorem inv5_newLb {s : State} (h : Inv5 s) (t : List Bytes) : Inv5 (newLb s t).1 :=
-  ⟨h.uo, h.file⟩
-
-theorem inv5_updSvc {s : State} (h : Inv5 s) (name : Bytes) (f : Svc → Svc)
-    (hf : ∀ v, keyOf (f v) = keyOf v) : Inv5 (updSvc s name f) := by
+theorem inv5_updSvc {c : Core} (h : Inv5 c) (name : Bytes) (f : Svc → Svc)
+    (hf : ∀ v, keyOf (f v) = keyOf v) : Inv5 (updSvc c name f) := by
   refine ⟨?_, h.file⟩
-  have : keys (updSvc s name f).svcs = keys s.svcs := by
+  have : keys (updSvc c name f).svcs = keys c.svcs := by
     unfold updSvc
-    exact keys_map_congr s.svcs _ fun v => by split <;> simp [hf]
+    exact keys_map_congr c.svcs _ fun v => by split <;> simp [hf]
   rw [this]; exact h.uo
 
-theorem keyOf_withLb (v : Svc) (slot : Slot) (id : Nat) : keyOf (withLb v slot id) = keyOf v := by
+theorem keyOf_withLb (v : Svc) (slot : Slot) (ts : List Bytes) : keyOf (withLb v slot ts) = keyOf v := by
   cases slot <;> rfl
 
-theorem withLb_name (v : Svc) (slot : Slot) (id : Nat) : (withLb v slot id).name = v.name := by
+theorem withLb_name (v : Svc) (slot : Slot) (ts : List Bytes) : (withLb v slot ts).name = v.name := by
   cases slot <;> rfl
 
-theorem withLb_opts (v : Svc) (slot : Slot) (id : Nat) : (withLb v slot id).opts = v.opts := by
+theorem withLb_opts (v : Svc) (slot : Slot) (ts : List Bytes) : (withLb v slot ts).opts = v.opts := by
   cases slot <;> rfl
 
-theorem get_name {s : State} {name : Bytes} {v : Svc} (h : s.get name = some v) : v.name = name := by
-  have := List.find?_some (h : s.svcs.find? (·.name = name) = some v)
+theorem get_name {c : Core} {name : Bytes} {v : Svc} (h : c.get name = some v) : v.name = name := by
+  have := List.find?_some (h : c.svcs.find? (·.name = name) = some v)
   simpa using this
 
-theorem deployObj_name (s : State) (name : Bytes) (o : SvcOptions) (t : TargetOptions) (cm : Bool) :
-    (deployObj s name o t cm).name = name := by
+theorem get_mem {c : Core} {name : Bytes} {v : Svc} (h : c.get name = some v) : v ∈ c.svcs :=
+  List.mem_of_find?_eq_some (h : c.svcs.find? (·.name = name) = some v)
+
+theorem deployObj_name (c : Core) (name : Bytes) (o : SvcOptions) (t : TargetOptions) (cm : Bool) :
+    (deployObj c name o t cm).name = name := by
   unfold deployObj
-  cases hg : s.get name with
+  cases hg : c.get name with
   | none => rfl
   | some old => simp only; exact get_name hg
 
-theorem deployObj_opts (s : State) (name : Bytes) (o : SvcOptions) (t : TargetOptions) (cm : Bool) :
-    (deployObj s name o t cm).opts = o := by
-  unfold deployObj; cases s.get name <;> rfl
+theorem deployObj_opts (c : Core) (name : Bytes) (o : SvcOptions) (t : TargetOptions) (cm : Bool) :
+    (deployObj c name o t cm).opts = o := by
+  unfold deployObj; cases c.get name <;> rfl
 
 theorem certManagerFor_error {o : SvcOptions} {env : Env} {e : Res} (h : certManagerFor o env = .error e) :
     e.isError = true := by
@@ -242,52 +231,40 @@ theorem initService_error {o : SvcOptions} {env : Env} {e : Res} (h : initServic
     · cases h; rfl
     · cases h
 
-/-- the possible outcomes of `deployInto`, with what each does to the service table -/
-theorem deployInto_cases (s : State) (v : Svc) (slot : Slot) (ts : List Bytes) (env : Env) :
-    ((deployInto s v slot ts env).2 = .badTarget ∧ (deployInto s v slot ts env).1.svcs = s.svcs) ∨
-    ((deployInto s v slot ts env).2 = .unhealthy ∧ (deployInto s v slot ts env).1.svcs = s.svcs) ∨
-    ((deployInto s v slot ts env).2 = .hostInUse ∧ conflict s.svcs v.name v.opts = true ∧
-        (deployInto s v slot ts env).1.svcs = s.svcs) ∨
-    ((deployInto s v slot ts env).2 = .ok ∧ conflict s.svcs v.name v.opts = false ∧
-        (deployInto s v slot ts env).1.svcs = setSvc s.svcs (withLb v slot s.nextLb)) := by
+/-- the possible outcomes of `deployInto`, with what each does to the service table, the state
+    file and the probe loops -/
+theorem deployInto_cases (c : Core) (v : Svc) (slot : Slot) (ts : List Bytes) (env : Env) :
+    (deployInto c v slot ts env = (c, .badTarget, [])) ∨
+    (deployInto c v slot ts env = (c, .unhealthy, [.start ts, .stop ts])) ∨
+    (conflict c.svcs v.name v.opts = true ∧
+        deployInto c v slot ts env = (save c, .hostInUse, [.start ts, .stop ts])) ∨
+    (conflict c.svcs v.name v.opts = false ∧ ∃ effs,
+        deployInto c v slot ts env = (save { c with svcs := setSvc c.svcs (withLb v slot ts) }, .ok, effs)) := by
   unfold deployInto
   split
-  · left; exact ⟨rfl, rfl⟩
-  · simp only
-    split
-    · right; left; exact ⟨rfl, rfl⟩
-    · split
+  · left; rfl
+  · split
+    · right; left; rfl
+    · simp only
+      split
       · rename_i hc
         right; right; left
-        refine ⟨rfl, ?_, rfl⟩
-        simpa [newLb, withLb_name, withLb_opts] using hc
+        exact ⟨by simpa [withLb_name, withLb_opts] using hc, rfl⟩
       · rename_i hc
         right; right; right
-        have hc' : conflict s.svcs v.name v.opts = false := by
-          simpa [newLb, withLb_name, withLb_opts] using hc
-        split <;> exact ⟨rfl, hc', rfl⟩
+        refine ⟨by simpa [withLb_name, withLb_opts] using hc, ?_⟩
+        split <;> exact ⟨_, rfl⟩
 
-theorem inv5_deployInto {s : State} (h : Inv5 s) (v : Svc) (slot : Slot) (ts : List Bytes) (env : Env) :
-    Inv5 (deployInto s v slot ts env).1 := by
-  unfold deployInto
-  split
+theorem inv5_deployInto {c : Core} (h : Inv5 c) (v : Svc) (slot : Slot) (ts : List Bytes) (env : Env) :
+    Inv5 (deployInto c v slot ts env).1 := by
+  rcases deployInto_cases c v slot ts env with e | e | ⟨_, e⟩ | ⟨hc, effs, e⟩ <;> rw [e]
   · exact h
-  · simp only
-    split
-    · exact inv5_disposeLb (inv5_newLb h ts) _
-    · split
-      · exact inv5_save (inv5_disposeLb (inv5_newLb h ts) _)
-      · rename_i hc
-        have hc' : conflict s.svcs (withLb v slot s.nextLb).name (withLb v slot s.nextLb).opts = false := by
-          simpa [newLb] using hc
-        have base : Inv5 (save { (newLb s ts).1 with svcs := setSvc (newLb s ts).1.svcs (withLb v slot s.nextLb) }) :=
-          inv5_save ⟨UO_setSvc h.uo hc', h.file⟩
-        split
-        · exact inv5_disposeLb base _
-        · exact base
+  · exact h
+  · exact inv5_save h
+  · apply inv5_save
+    exact ⟨UO_setSvc h.uo (by rw [withLb_name, withLb_opts]; exact hc), h.file⟩
 
-theorem restoreSvc_ok {s s' : State} {sn : SvcSnap} {v : Svc} (h : restoreSvc s sn = .ok (s', v)) :
-    keyOf v = snapKey sn ∧ s'.svcs = s.svcs ∧ s'.file = s.file := by
+theorem restoreSvc_ok {sn : SvcSnap} {v : Svc} (h : restoreSvc sn = .ok v) : keyOf v = snapKey sn := by
   unfold restoreSvc at h
   split at h
   · cases h
@@ -298,127 +275,128 @@ theorem restoreSvc_ok {s s' : State} {sn : SvcSnap} {v : Svc} (h : restoreSvc s 
       · cases h
       · split at h
         · cases h
-        · simp only [Except.ok.injEq, Prod.mk.injEq] at h
-          obtain ⟨h1, h2⟩ := h
-          subst h2
-          refine ⟨rfl, ?_, ?_⟩
-          · rw [← h1]; split <;> rfl
-          · rw [← h1]; split <;> rfl
+        · cases h; rfl
 
-theorem restoreAll_keys {sns : List SvcSnap} : ∀ {s s' : State}, restoreAll s sns = some s' →
-    s'.file = s.file ∧ ∀ k ∈ keys s'.svcs, k ∈ keys s.svcs ∨ k ∈ sns.map snapKey := by
+theorem restoreAll_keys {sns : List SvcSnap} : ∀ {svcs svcs' : List Svc}, restoreAll svcs sns = some svcs' →
+    ∀ k ∈ keys svcs', k ∈ keys svcs ∨ k ∈ sns.map snapKey := by
   induction sns with
-  | nil => intro s s' h; simp only [restoreAll, Option.some.injEq] at h; subst h; exact ⟨rfl, fun k hk => Or.inl hk⟩
+  | nil => intro s s' h; simp only [restoreAll, Option.some.injEq] at h; subst h; exact fun k hk => Or.inl hk
   | cons sn rest ih =>
     intro s s' h
     unfold restoreAll at h
     split at h
     · cases h
-    · rename_i s1 v hr
-      obtain ⟨hk, hs, hf⟩ := restoreSvc_ok hr
-      obtain ⟨f2, k2⟩ := ih h
-      refine ⟨f2.trans hf, ?_⟩
+    · rename_i v hr
+      have hk := restoreSvc_ok hr
       intro k hkm
-      rcases k2 k hkm with h1 | h1
+      rcases ih h k hkm with h1 | h1
       · rcases mem_keys_setSvc h1 with ⟨h2, -⟩ | rfl
-        · left; rw [← hs]; exact h2
+        · left; exact h2
         · right; rw [hk]; simp
       · right; simp only [List.map_cons, List.mem_cons]; right; exact h1
 
 theorem inv5_restore (file : Option (List SvcSnap)) (hf : ∀ sns, file = some sns → UO (sns.map snapKey)) :
-    Inv5 (restore file) := by
-  have hempty : Inv5 { State.init with file := file } :=
-    ⟨fun a ha => by simp [keys, State.init] at ha, fun sns hs => hf sns hs⟩
-  unfold restore
+    Inv5 (restoreCore file) := by
+  unfold restoreCore
   cases file with
-  | none => exact hempty
+  | none => exact ⟨fun a ha => by simp [keys] at ha, fun sns hs => by cases hs⟩
   | some sns =>
     simp only
-    cases hr : restoreAll { State.init with file := some sns } sns with
-    | none => exact hempty
+    refine ⟨?_, fun sns' hs => hf sns' hs⟩
+    cases hr : restoreAll [] sns with
+    | none => intro a ha; simp [keys] at ha
     | some s' =>
-      obtain ⟨f2, k2⟩ := restoreAll_keys hr
       simp only [Option.getD_some]
-      have f3 : s'.file = some sns := f2
-      refine ⟨?_, fun sns' hs => hf sns' (by rw [f3] at hs; exact hs)⟩
       apply UO_subset (hf sns rfl)
       intro k hk
-      rcases k2 k hk with h1 | h1
-      · simp [keys, State.init] at h1
+      rcases restoreAll_keys hr k hk with h1 | h1
+      · simp [keys] at h1
       · exact h1
 
-theorem inv5_withSvc {s : State} (h : Inv5 s) (name : Bytes) (k : Svc → State × Res)
-    (hk : ∀ v, Inv5 (k v).1) : Inv5 (withSvc s name k).1 := by
+theorem inv5_withSvc {c : Core} (h : Inv5 c) (name : Bytes) (k : Svc → Core × Res × List Eff)
+    (hk : ∀ v, Inv5 (k v).1) : Inv5 (withSvc c name k).1 := by
   unfold withSvc
   split
   · exact inv5_save h
   · exact hk _
 
 /-- every command preserves the ownership invariant -/
-theorem inv5_step {s : State} (h : Inv5 s) (c : Cmd) : Inv5 (step s c).1 := by
-  cases c with
+theorem inv5_step {c : Core} (h : Inv5 c) (cmd : Cmd) : Inv5 (stepCore c cmd).1 := by
+  cases cmd with
   | deploy name targets opts topts env =>
-    simp only [step]
+    simp only [stepCore]
     split
     · exact h
     · exact inv5_deployInto h _ _ _ _
   | rolloutDeploy name targets env =>
-    simp only [step]
+    simp only [stepCore]
     split
     · exact h
     · exact inv5_deployInto h _ _ _ _
   | rolloutSet name percent allow =>
-    simp only [step]
+    simp only [stepCore]
     apply inv5_withSvc h
     intro v
     split
     · exact inv5_save h
     · exact inv5_save (inv5_updSvc h _ _ fun _ => rfl)
   | rolloutStop name =>
-    simp only [step]
+    simp only [stepCore]
     exact inv5_withSvc h _ _ fun _ => inv5_save (inv5_updSvc h _ _ fun _ => rfl)
   | pause name fa =>
-    simp only [step]
+    simp only [stepCore]
     exact inv5_withSvc h _ _ fun _ => inv5_save (inv5_updSvc h _ _ fun _ => rfl)
   | stop name msg =>
-    simp only [step]
+    simp only [stepCore]
     apply inv5_withSvc h
     intro v
     split
     · exact h
     · exact inv5_save (inv5_updSvc h _ _ fun _ => rfl)
   | resume name =>
-    simp only [step]
+    simp only [stepCore]
     apply inv5_withSvc h
     intro v
     split
     · exact h
     · exact inv5_save (inv5_updSvc h _ _ fun _ => rfl)
   | remove name =>
-    simp only [step]
+    simp only [stepCore]
     apply inv5_withSvc h
     intro v
     apply inv5_save
-    refine ⟨?_, ?_⟩
-    · apply UO_subset h.uo
-      intro k hk
-      have := (keys_removeSvc_subset _ name k hk).1
-      split at this <;> exact this
-    · intro sns hs
-      apply h.file sns
-      split at hs <;> exact hs
+    exact ⟨UO_subset h.uo fun k hk => (keys_removeSvc_subset _ name k hk).1, h.file⟩
   | restart =>
-    simp only [step]
-    exact inv5_restore s.file h.file
+    simp only [stepCore]
+    exact inv5_restore c.file h.file
 
-theorem inv5_init : Inv5 State.init :=
-  ⟨fun a ha => by simp [keys, State.init] at ha, fun sns hs => by simp [State.init] at hs⟩
+theorem inv5_init : Inv5 Core.init :=
+  ⟨fun a ha => by simp [keys, Core.init] at ha, fun sns hs => by simp [Core.init] at hs⟩
 
-theorem inv5_run (cmds : List Cmd) : Inv5 (run cmds) := by
-  unfold run
-  suffices ∀ s, Inv5 s → Inv5 (cmds.foldl (fun s c => (step s c).1) s) from this _ inv5_init
+theorem inv5_runCore (cmds : List Cmd) : Inv5 (runCore cmds) := by
+  unfold runCore
+  suffices ∀ c, Inv5 c → Inv5 (cmds.foldl (fun c cmd => (stepCore c cmd).1) c) from this _ inv5_init
   induction cmds with
   | nil => intro s h; exact h
   | cons c cs ih => intro s h; exact ih _ (inv5_step h c)
+
+/-- the full state's core is the core run: probe and rotation bookkeeping never feeds back -/
+theorem foldl_applyEff_core (effs : List Eff) (s : State) : (effs.foldl applyEff s).core = s.core := by
+  induction effs generalizing s with
+  | nil => rfl
+  | cons e es ih => rw [List.foldl_cons, ih]; cases e <;> rfl
+
+theorem step_core (s : State) (cmd : Cmd) : (step s cmd).1.core = (stepCore s.core cmd).1 := by
+  simp only [step]; rw [foldl_applyEff_core]
+
+theorem step_res (s : State) (cmd : Cmd) : (step s cmd).2 = (stepCore s.core cmd).2.1 := rfl
+
+theorem run_core (cmds : List Cmd) : (run cmds).core = runCore cmds := by
+  unfold run runCore
+  suffices ∀ s : State, (cmds.foldl (fun s c => (step s c).1) s).core =
+      cmds.foldl (fun c cmd => (stepCore c cmd).1) s.core from this State.init
+  induction cmds with
+  | nil => intro s; rfl
+  | cons c cs ih => intro s; simp only [List.foldl_cons]; rw [ih, step_core]
 
 end KamalProxy
